@@ -71,8 +71,24 @@ def run(ctx):
                 if args and re.search(r"split_first\(.*\)↓Some\.0\.0$", args[0]):
                     stem_pred = at[0][1]
             if stem_pred is None:
-                ctx.ob("R-CLS", "validate_file_name:stem-predicate", False, "no per-byte predicate on the scanned byte found",
-                       where=vf.loc)
+                # no helper predicate: the tests on the scanned byte are written out in the loop.  Decide the loop body for
+                # each of the 256 byte values: does the scan continue, leave the loop towards success, or reject?
+                fate, pr = scan_byte_fates(f, vf, oc, head, r"split_first\(.*\)↓Some\.0\.0$")
+                if fate is None:
+                    ctx.ob("R-CLS", "validate_file_name:stem-predicate", False,
+                           "the per-byte tests of the scan loop are understood", where=vf.loc, detail=pr)
+                else:
+                    stem_cls = {v for v, x in fate.items() if x == "continue"}
+                    ctx.ob("R-CLS", "validate_file_name:stem-class", stem_cls == STEM and not pr,
+                           "bytes allowed before the dot are exactly [-_0-9A-Za-z]", where=vf.loc,
+                           detail={"extracted": absint.fmt_class(stem_cls), "problems": pr, "form": "tests written out in the loop"})
+                    ctx.ob("R-CHK", "validate_file_name:every-stem-byte-checked", True,
+                           "scanning continues past a byte only on the true edge of the stem predicate", where=vf.loc,
+                           detail="decided per byte value")
+                    ex = {v for v, x in fate.items() if x == "exit"}
+                    ctx.ob("R-CHK", "validate_file_name:scan-exits", ex == {0x2e},
+                           "the scan is left towards success only at end of input or at a '.' byte", where=vf.loc,
+                           detail={"bytes leaving the scan": absint.fmt_class(ex)})
             else:
                 stem_cls, pr = absint.byte_class(f, stem_pred)
                 ctx.ob("R-CLS", "validate_file_name:stem-class", stem_cls == STEM and not pr,
@@ -126,15 +142,19 @@ def run(ctx):
             ok = mp.holds(vf.name)
             ctx.ob("R-GRD", "validate_file_name:extension-length-3", ok,
                    "success requires exactly three bytes after the dot", where=vf.loc, detail=None if ok else K.why(f, mp, vf.name))
-            all_calls = [c for c in vf.calls() if c.name == "all" and c.trait == "std::iter::Iterator"]
+            # `rest.iter().all(p)` must hold, or — the same thing — `rest.iter().any(q)` must not (then the class is ¬q)
+            all_calls = [c for c in vf.calls() if c.name in ("all", "any") and c.trait == "std::iter::Iterator" and not vf.is_cleanup(c.bb)]
             okx = False
             detail = None
             for c in all_calls:
                 a = K.arg_terms(c)
-                if re.search(r"(^|⟵)%s$" % scan, render(a[0])):
+                recv_rx = r"(^|⟵)(Iterator::(copied|cloned)\()?%s\)?$" % scan
+                if re.search(recv_rx, render(a[0])):
                     ext_cls, pr = predicate_class(f, strip(a[1]))
-                    detail = {"extracted": absint.fmt_class(ext_cls), "problems": pr}
-                    g = pred_matcher(r"Iterator::all$|::all$", (r"(^|⟵)%s$" % scan,))
+                    if c.name == "any" and ext_cls is not None:
+                        ext_cls = set(range(256)) - ext_cls
+                    detail = {"form": c.name, "extracted": absint.fmt_class(ext_cls), "problems": pr}
+                    g = pred_matcher(r"::%s$" % c.name, (recv_rx,), positive=(c.name == "all"))
                     mp = MustPass(f, lambda c: False, guard_fn=lambda bd, s, bb: guard_edges(bd, s, bb, g), name="all alphabetic")
                     okx = ext_cls == ALPHA and not pr and mp.holds(vf.name)
             ctx.ob("R-CLS", "validate_file_name:extension-class", okx,
@@ -468,6 +488,99 @@ def through_helpers(f, t, depth=0):
             return t
         v = strip_deep(nxt[0])
     return through_helpers(f, v, depth + 1)
+
+
+_CLS_CACHE = {}
+
+
+def scan_byte_fates(f, body, oc, head, byte_rx):
+    """For a scan loop whose element is produced by the call `head` (split_first): what happens to each byte value on the
+    Some edge — "continue" (back to the producer), "exit" (leaves the loop towards a success return) or "reject".
+    Every branch on the way must be a test of that byte against constants (==, <, <=, … in any spelling, `match` arms,
+    std's u8::is_ascii_* or a crate predicate whose byte class is computed); anything else → (None, why)."""
+    sym = oc.sym
+    rx = re.compile(byte_rx)
+    comp = None
+    for c in body.cycles_sccs():
+        if head.bb in c:
+            comp = set(c)
+    sws = variant_switches(body, sym, r"split_first\(")
+    if comp is None or len(sws) != 1:
+        return None, ["scan loop not found"]
+    start = [tb for v, tb in body.switch_edges(sws[0]) if v == 1]
+    if len(start) != 1:
+        return None, ["no Some edge"]
+    ok_reach = oc.success_reach()
+
+    def is_byte(t):
+        return rx.search(render(strip_deep(t))) is not None
+
+    def const_of(t):
+        t = K.fold_consts(strip_deep(t), f.consts)
+        return t[1] if t[0] == "const" and isinstance(t[1], int) and not isinstance(t[1], bool) else None
+
+    def truth(term, v):
+        at = bool_atom(term)
+        if at is None:
+            return None
+        rel, a, b, pos = at
+        if isinstance(rel, tuple):
+            if len(a) != 1 or not is_byte(a[0]):
+                return None
+            name = rel[1]
+            if name not in _CLS_CACHE:
+                m = re.match(r"^core::num::<impl u8>::(is_ascii\w*)$", name)
+                if m and m.group(1) in absint.ASCII_CLASSES:
+                    _CLS_CACHE[name] = ({x for lo, hi in absint.ASCII_CLASSES[m.group(1)] for x in range(lo, hi + 1)}, [])
+                elif f.body(name) is not None:
+                    _CLS_CACHE[name] = absint.byte_class(f, name)
+                else:
+                    _CLS_CACHE[name] = (None, ["unknown predicate " + name])
+            cls, pr = _CLS_CACHE[name]
+            if cls is None or pr:
+                return None
+            return (v in cls) == pos
+        x = v if is_byte(a) else const_of(a)
+        y = v if is_byte(b) else const_of(b)
+        if x is None or y is None or not (is_byte(a) or is_byte(b)):
+            return None
+        r = {"eq": x == y, "lt": x < y, "le": x <= y, "gt": x > y, "ge": x >= y}[rel]
+        return r == pos
+
+    fate = {}
+    for v in range(256):
+        cur, steps = start[0], 0
+        while True:
+            steps += 1
+            if steps > 200:
+                return None, ["walk does not terminate for byte %d" % v]
+            if cur == head.bb:
+                fate[v] = "continue"
+                break
+            if cur not in comp:
+                fate[v] = "exit" if cur in ok_reach and cur not in oc.fail_blocks else "reject"
+                break
+            t = body.term(cur)
+            if t["t"] != "switch":
+                nx = body.succs(cur)
+                if len(nx) != 1:
+                    fate[v] = "reject"       # return / unreachable inside the walk
+                    break
+                cur = nx[0]
+                continue
+            d = sym.operand(t["discr"])
+            if t.get("dty") == "bool":
+                tv = truth(d, v)
+                if tv is None:
+                    return None, ["bb%d: not a test of the scanned byte against constants: %s" % (cur, render(strip_deep(d))[:160])]
+                fe, te = switch_bool_edges(body, cur)
+                cur = te if tv else fe
+            elif is_byte(d):
+                nxt = [tb for val, tb in t["targets"] if val == v]
+                cur = nxt[0] if nxt else t["otherwise"]
+            else:
+                return None, ["bb%d: branch on something other than the scanned byte: %s" % (cur, render(strip_deep(d))[:160])]
+    return fate, []
 
 
 def value_edges(f, body, sym, bb, place_rx, value):
